@@ -49,6 +49,9 @@ CLAIMED = {
   "C15": ("CrossHair (z3) over the real ConfigParser accessors with symbolic choices of variable names (incl. names equal to keys of other sections), values, consuming section kind and referenced section name; the file with [Variables]/placeholders must give exactly the accessor results of the file without / with values substituted by hand; confirmed over all paths; templated versus substituted file through potable",
           "1-2 unreferenced variables x 14 names x 3 values (plain and Finnis-Sinclair); ${NAME} in each of 7 section kinds; ${SECTION:KEY} with whitespace in the key; nested ${SECTION:KEY} -> ${name} with section names containing blanks",
           "configparser's text-level parsing is outside (conditions inject sections with read_dict; replays use real text); a placeholder named like a key of its own section refers to that key by the INI rules", "3 C15"),
+  "C20": ("CrossHair (z3) with symbolic indices into candidate spelling lists: the model text built from them is read by the real Configuration().read(); spellings with equal normal form (or a reversed pair, equal form labels, equal table names, a table named like a custom or built-in form) must end in a ConfigurationException, distinct ones must be accepted and the tabulated function must follow its own definition; confirmed over all paths; counterexamples replayed; potable replay layer",
+          "2 and 3 entries per section (adjacent and separated duplicates): [Pair] (10 spellings), A->B densities (8), embed/density species (5), form signatures (6), table-form headers (5), table vs custom vs built-in names (6 names, both file orders)",
+          "keys beginning with white space are INI continuation lines and outside; spellings outside the candidate lists are represented by them (keys are opaque apart from whitespace, '-' and '->')", "3 C20"),
   "C17": ("fault injection with a symbolic failing ordinal: every function evaluation compares its index with one symbolic integer k, the SYMX explorer splits on the z3-feasible classes of k (N+1, N discovered) through the real write()/action_tabulate code with a recording sink / real file; a z3 completeness VC shows the explored classes cover every integer k; each partial-output path is replayed with the model's concrete k",
           "for every tabulation target, every position k of the failing evaluation (pair, density, embedding, dipole, quadrupole functions) on the stated grids: nothing written and the exception propagates; no failure: whole table; large grids (size-dependent buffering) with k in a stated candidate set",
           "loop counts concrete per run (small grids exhaustive in k; large grids over a candidate set of k); failures modelled as exceptions leaving the callable; potable end-to-end runs on real files are a concrete replay layer", "3 C17"),
